@@ -1,5 +1,6 @@
 import BctVerif.Lemmas.ModularityLabels
 import BctVerif.Lemmas.ModularityBisect
+import BctVerif.Lemmas.ModularityScale
 
 /-!
 # C02 — community detectors return a valid partition and its true modularity
@@ -205,6 +206,14 @@ theorem spectral_consistent (dir : Bool) (W : RMat n) (γ : ℚ) (ds : List (Opt
     (∃ k, (∀ i, 1 ≤ ci i ∧ ci i ≤ k) ∧ ∀ l, 1 ≤ l → l ≤ k → ∃ i, ci i = l) ∧
     (dir = true → q = Qdir W γ ci) ∧ (dir = false → Symm W → q = Qund W γ ci) :=
   spectralRun_spec dir W γ ds ci q left hn h
+
+/-- **Q_scale_invariant** — the quality functions do not change when every weight is multiplied by the same factor
+(`c ≠ 0`; `c > 0` for the signed types, which split the weights by sign).  This is why the check may feed the
+real routines `W·2^e` while the model keeps the unscaled integer weights. -/
+theorem Q_scale_invariant {α : Type} [DecidableEq α] (c : ℚ) (W : RMat n) (γ : ℚ) (p : Fin n → α) :
+    (c ≠ 0 → Qdir (scaleMat c W) γ p = Qdir W γ p ∧ Qund (scaleMat c W) γ p = Qund W γ p) ∧
+    (0 < c → ∀ t : QType, Qsign t (scaleMat c W) γ p = Qsign t W γ p) :=
+  ⟨fun hc => ⟨Qdir_scale c hc W γ p, Qund_scale c hc W γ p⟩, fun hc t => Qsign_scale t c hc W γ p⟩
 
 /-
 **Partial / not claimed.** `modularity_louvain_dir` is modelled *as coded* (defect D6: `W = W1` never assigned,
